@@ -38,10 +38,25 @@ def seeded():
     out.append(f"{n} confirmed seeded changes.")
     return "\n".join(out)
 
+def status():
+    props = json.load(open(os.path.join(R, "lean", "props.json")))
+    fs = json.load(open(os.path.join(R, "known_findings.json")))
+    out = ["| property | theorems (full / partial / witness) | not carried by a theorem | open findings |", "|---|---|---|---|"]
+    allp = [json.loads(l)["id"] for l in open(os.path.join(R, "properties.jsonl")) if l.strip()]
+    for pid in allp:
+        if pid not in props:
+            out.append(f"| {pid} | — | check not built yet | |")
+            continue
+        th = props[pid].get("theorems", [])
+        k = lambda x: sum(1 for t in th if t.get("kind") == x)
+        opn = [f["id"] for f in fs if f.get("property") == pid and f.get("status") != "fixed"]
+        out.append(f"| {pid} | {len(th)} ({k('full')} / {k('partial')} / {k('witness')}) | {esc(props[pid].get('partial') or 'nothing: every clause is a theorem over the model; model = code is the correspondence run')[:700]} | {', '.join(opn)} |")
+    return "\n".join(out)
+
 def main():
     p = os.path.join(R, "DESIGN.md")
     s = open(p).read()
-    for name, fn in (("findings", findings), ("seeded", seeded)):
+    for name, fn in (("findings", findings), ("seeded", seeded), ("status", status)):
         pat = re.compile(rf"(<!-- GEN:{name} -->\n).*?(<!-- /GEN:{name} -->)", re.S)
         if pat.search(s):
             s = pat.sub(lambda m: m.group(1) + fn() + "\n" + m.group(2), s)
